@@ -224,13 +224,23 @@ Definition c08_clauses (c : case) (a : atx) : list (N * bool) :=
 Definition no_empty {A B} (o : option (list (A * list B))) : bool :=
   match o with Some [] => false | Some l => forallb (fun p => match snd p with [] => false | _ => true end) l | None => true end.
 
+(** known class (F10-3): the template's input blocks name one UTxO more than once; the inputs
+    field then lists it as often (a pinned test, smoke_test_vesting_unlock, pins the hash of such
+    a body) *)
+Definition repeated_input (t : tx) : bool :=
+  negb (bool_decide (NoDup (flat_map (fun i => match expr_into_utxo_refs (i_utxos i) with
+                                               | Ok rs => map (fun r => (r_txid r, r_idx r)) rs
+                                               | _ => [] end) (tx_inputs t)))).
+
 Definition c10_clauses (c : case) (a : atx) : list (N * bool) :=
-  [ (301%N, no_empty (a_mint a) && forallb (fun o => forallb (fun p => match snd p with [] => false | _ => true end) (ao_assets o)) (a_outputs a));
+  [ (321%N, negb (repeated_input (c_tx c) && negb (bool_decide (NoDup (a_inputs a))))); (301%N, no_empty (a_mint a) && forallb (fun o => forallb (fun p => match snd p with [] => false | _ => true end) (ao_assets o)) (a_outputs a));
     (302%N, match a_withdrawals a, a_signers a, a_refs a, a_collateral a, a_redeemers a, a_metadata a with
             | Some [], _, _, _, _, _ | _, Some [], _, _, _, _ | _, _, Some [], _, _, _
             | _, _, _, Some [], _, _ | _, _, _, _, Some [], _ | _, _, _, _, _, Some [] => false
             | _, _, _, _, _, _ => true end);
-    (303%N, bool_decide (NoDup (a_inputs a)));
+    (303%N, repeated_input (c_tx c) || bool_decide (NoDup (a_inputs a)));
+    (307%N, bool_decide (NoDup (default [] (a_refs a))) && bool_decide (NoDup (default [] (a_collateral a)))
+            && bool_decide (NoDup (default [] (a_signers a))));
     (304%N, (a_network a =? (if c_mainnet c then 1 else 0))%N);
     (305%N, Bool.eqb (a_has_script_data_hash a) (match a_redeemers a with Some _ => true | None => false end));
     (306%N, Bool.eqb (a_has_aux_hash a) (match a_metadata a with Some _ => true | None => false end)) ].
